@@ -8,20 +8,28 @@ ENTRY = dict(
                "tables extracted from the source; correspondence with a real EcoMAX fed UID + parameter responses built from payload bytes, "
                "device.data and the payload of the request queued by set()"),
     level_text=(
-        "Proof: `C07.index_preserved` (every named parameter of every device, after ANY history, records a position of its family's table whose "
-        "description has that name), `C07.request_addresses` (the set request carries exactly that position: ecoMAX [i,v]; mixer [m,i,v]; thermostat "
-        "[i+1+offset]++LE(v,size); control request [v]; profile -> thermostat slot 0; schedule -> set-schedule of schedule i/2 = the name without suffix), "
-        "`C07.read_slot_ecomax` (the triple decoded from the slot of position p ends up under table[p].name with index p, created or updated), "
-        "`names_unique_*`/`name_index_bijection`, `update_keeps_index`, `unknown_inert_*` (positions without description create/overwrite/re-index nothing). "
-        "Thermostat offsets: `thermostat_offset_partial` for blocks without undefined holes; the full statement is refuted by the witness "
-        "`thermostat_offset_full_false` (open finding F3)."),
-    level_note=("Trusted: Lean kernel; the dataset model <-> devices/*.py, structures/*_parameters.py, schedules.py tie is differential (generated histories incl. "
-                "truncated payloads); product type is fixed per device history; asyncio task ordering of dispatches is exercised, not modelled."),
+        "Proof: the dataset model consumes C05's decoder model (P2.decodeEcomax/Mixer/Thermo/Sched). `C07.index_preserved` (every named "
+        "parameter of every device, after ANY history, records a position of its family's table whose description has that name), "
+        "`C07.request_addresses` (the set request carries exactly that position: ecoMAX [i,v]; mixer [m,i,v]; thermostat "
+        "[i+1+offset]++LE(v,size); control request [v]; profile -> thermostat slot 0; schedule -> set-schedule of the schedule the name "
+        "splits to), `C07.read_slot_ecomax/_mixer/_thermostat/_schedule` (the triple the decoder reports for position p of a block ends "
+        "up under table[p].name of that (sub-)device with index p, created or updated), `C07.payload_to_request_ecomax/_mixer/_thermostat/"
+        "_schedule` (END TO END: bytes produced by C05's encoders -> decoded list (C05.rt_params_*) -> dataset -> `set` -> the request "
+        "addressing that slot), `C07.addressing_stable_thermostat` (no event ever changes index/offset/owner/width of an existing "
+        "thermostat parameter: create then partial update), `names_unique_*`/`name_index_bijection`, `schedule_split_agrees` "
+        "(name.split('_schedule_')[0] + SCHEDULES.index = position/2 for all 80 names), `update_keeps_index`, `unknown_inert_*`. "
+        "Thermostat offsets: `thermostat_offset_partial` for responses without undefined holes (offset = t x slotsPer start count T); "
+        "the full statement is refuted by `thermostat_offset_full_false` (open finding F3)."),
+    level_note=("Trusted: Lean kernel; the dataset model <-> devices/*.py tie is differential (generated histories incl. truncated payloads; the "
+                "decoders are C05's model, tied by C05's own correspondence too); product type is fixed per device history; asyncio task "
+                "ordering of dispatches is exercised, not modelled."),
     clauses={
-        "names unique per table (name <-> index bijection)": "table (decide +kernel on the generated tables)",
+        "names unique per table (name <-> index bijection); schedule names split back to their schedule": "table (decide +kernel on the generated tables)",
         "index preserved over any history; request addressing per kind": "theorem",
-        "value decoded from position p is held under table[p].name with index p": "theorem for the ecoMAX block (`read_slot_ecomax`); correspondence (predicate S1) for mixer/thermostat/schedule blocks",
+        "value decoded from position p is held under table[p].name with index p": "theorem for all four block kinds (`read_slot_*`; schedule: entries naming distinct known schedules)",
+        "payload bytes -> request addressing, end to end": "theorem (`payload_to_request_*`) for payloads produced by C05's encoders",
         "position without description never creates/overwrites/re-indexes": "theorem (`unknown_inert_ecomax(_all)`, `_mixer`, `_thermostat`, `_schedule`)",
+        "existing thermostat parameters are never re-addressed by later responses": "theorem (`addressing_stable_thermostat`)",
         "thermostat offset = t x parameters per thermostat": "partial: theorem without holes; F3 witness with a hole",
         "model = implementation": "correspondence",
     },
